@@ -34,6 +34,10 @@ from vf import lib, sym
 from vf.sym import S, zr
 from vf import bathsym as bs
 from checks.c03 import build_pt
+import contextlib
+import io
+import oqupy.dynamics as dynm
+from oqupy.control import ChainControl
 
 ASSUMPTIONS = [
     "exact real/complex arithmetic (floating-point rounding outside the claim)",
@@ -556,6 +560,210 @@ class H3ctrl_alias(Case):
         return [Ob.eq("control at step 1 is the operation passed to add_single", pre, base, key="constructed_object_unaffected")]
 
 
+class H3rec(Case):
+    """recorded results do not alias the caller's arrays: after the call returned, the caller overwrites
+    its array in place; the recorded states must still be the values at the time of the call.
+    What is decided how: WHETHER the library keeps a reference / a view is a concrete structural fact of
+    the run (numpy copy-vs-view semantics for the dtype and layout at hand); the solver decides only
+    'recorded value == value at call time for ALL entry values'.  In sym/frac mode the arrays are object
+    arrays (NpDtype -> object), in real mode (validation and replay) they are C-contiguous complex128
+    arrays, the case in which np.asarray / reshape hand back the caller's memory."""
+    functions = ("dynamics.Dynamics.__init__", "dynamics.Dynamics.add", "dynamics.MeanFieldDynamics.add", "dynamics._parse_state",
+                 "system_dynamics.compute_dynamics")
+    stubs = ("System.get_propagators -> symbolic half-step propagators",)
+    env = {"noconj": True}
+
+    def __init__(self, variant):
+        self.variant = variant
+        self.id = "H3/recorded_alias_%s" % variant
+        self.bounds = {"d": 2, "variant": variant, "real-mode dtype": "complex128, C-contiguous"}
+
+    def run(self, inp):
+        d, v = 2, self.variant
+        base = inp.arr("r", (d, d))
+        other = inp.arr("other", (d, d))
+        a = base.copy()
+        if inp.mode == "real":
+            assert a.dtype == np.complex128 and a.flags.c_contiguous
+        obs = []
+        if v == "dynamics_ctor":
+            dyn = dynm.Dynamics(times=[0.0], states=[a])
+            a[...] = other
+            obs.append(Ob.eq("Dynamics(times, [a]).states[0] keeps the value at call time", dyn.states[0], base, key="recorded_unaffected"))
+        elif v == "dynamics_add":
+            dyn = dynm.Dynamics()
+            dyn.add(0.0, a)
+            b = base.copy()
+            dyn.add(0.5, b)
+            a[...] = other
+            b[...] = other
+            obs += [Ob.eq("Dynamics.add(t, a): state %d keeps the value at call time" % i, dyn.states[i], base, key="recorded_unaffected")
+                    for i in range(2)]
+        elif v == "meanfield_add":
+            b2base = inp.arr("r2", (d, d))
+            b2 = b2base.copy()
+            mf = dynm.MeanFieldDynamics()
+            mf.add(0.0, [a, b2], 0.25 + 0.5j)
+            a[...] = other
+            b2[...] = other
+            sds = mf.system_dynamics
+            obs += [Ob.eq("MeanFieldDynamics.add: system 0 state keeps the value at call time", sds[0].states[0], base, key="recorded_unaffected"),
+                    Ob.eq("MeanFieldDynamics.add: system 1 state keeps the value at call time", sds[1].states[0], b2base, key="recorded_unaffected")]
+        else:
+            N = 2
+            P1 = [lib.gen_prop(inp, "p%d" % k, d) for k in range(N)]
+            P2 = [lib.gen_prop(inp, "q%d" % k, d) for k in range(N)]
+            if v == "compute_dynamics_nopt":
+                kw = {"dt": 0.1, "num_steps": N}
+            else:
+                kw = {"process_tensor": build_pt(inp, "e", d, N, 2, 4, False)[0]}
+            dyn = sd.compute_dynamics(lib.FakeSystem(d, P1, P2), initial_state=a, progress_type="silent", **kw)
+            kw2 = dict(kw)
+            ref = sd.compute_dynamics(lib.FakeSystem(d, P1, P2), initial_state=base.copy(), progress_type="silent", **kw2)
+            a[...] = other                       # after the call returned
+            st, rf = dyn.states, ref.states
+            if v == "compute_dynamics_nopt":      # (with a process tensor the recorded state carries the cap)
+                obs.append(Ob.eq("recorded state at the start time is the initial state at call time", st[0], base, key="recorded_unaffected"))
+            obs += [Ob.eq("recorded state %d unaffected by the later overwrite" % n, st[n], rf[n], key="recorded_unaffected")
+                    for n in range(N + 1)]
+        return obs
+
+
+def _quiet():
+    return contextlib.redirect_stdout(io.StringIO())
+
+
+class H4ctl(Case):
+    """Control.get_controls / ChainControl.get_single_site_controls are queries: asking twice (or using the
+    object in two computations) gives the same answer as a fresh equal object, and what the query handed
+    out can be overwritten without reaching the object.  >= 2 controls stacked on one step/site/side."""
+    functions = ("control.Control.add_single", "control.Control.get_controls", "control.ChainControl.add_single_site_control",
+                 "control.ChainControl.get_single_site_controls")
+    env = {"noconj": True}
+
+    def __init__(self, which, nstack=2):
+        self.which, self.nstack = which, nstack
+        self.id = "H4/query_twice_%s_k%d" % (which, nstack)
+        self.bounds = {"object": which, "stacked controls": nstack, "d": 2}
+
+    def run(self, inp):
+        D = 4
+        ops = [inp.arr("C%d" % i, (D, D)) for i in range(self.nstack)]
+        tops = [inp.arr("Tm%d" % i, (D, D)) for i in range(2)]
+        obs = []
+        if self.which == "control":
+            def mk():
+                c = Control(2)
+                for o in ops:
+                    c.add_single(1, o.copy())                 # stacked, pre
+                    c.add_single(1, o.copy(), post=True)      # stacked, post
+                for o in tops:
+                    c.add_single(0.25, o.copy())              # stacked on one time stamp (step 2 for dt = 1/8)
+                return c
+            q = lambda c, step: c.get_controls(step, dt=0.125, start_time=0.0)
+            c, fresh = mk(), mk()
+            for step in (1, 2):
+                with _quiet():
+                    first = q(c, step)
+                    for x in first:
+                        if x is not None:
+                            x[...] = x * 0 + 5            # the caller scribbles over what it was handed
+                    second = q(c, step)
+                    third = q(c, step)
+                    exp = q(fresh, step)
+                for side, f2, f3, e in zip(("pre", "post"), second, third, exp):
+                    if e is None:
+                        obs.append(Ob.holds("step %d %s: None as for a fresh object" % (step, side), f2 is None and f3 is None))
+                        continue
+                    obs += [Ob.eq("step %d %s: second query == fresh object" % (step, side), f2, e),
+                            Ob.eq("step %d %s: third query == fresh object" % (step, side), f3, e)]
+            stack = ops[0]
+            for o in ops[1:]:
+                stack = o @ stack
+            with _quiet():
+                obs.append(Ob.eq("step 1 pre: documented product (later added acts later)", q(mk(), 1)[0], stack))
+        else:
+            def mk():
+                cc = ChainControl([2, 2])
+                for o in ops:
+                    cc.add_single_site_control(o.copy(), 0, 1)
+                    cc.add_single_site_control(o.copy(), 1, 1, post=True)
+                cc.add_single_site_control(tops[0].copy(), 1, 1)
+                return cc
+            cc, fresh = mk(), mk()
+            for post in (False, True):
+                first = cc.get_single_site_controls(1, post)
+                for x in first:
+                    if x is not None:
+                        x[...] = x * 0 + 5
+                second = cc.get_single_site_controls(1, post)
+                third = cc.get_single_site_controls(1, post)
+                exp = fresh.get_single_site_controls(1, post)
+                for k in range(2):
+                    nm = "%s site %d" % ("post" if post else "pre", k)
+                    if exp[k] is None:
+                        obs.append(Ob.holds(nm + ": None as for a fresh object", second[k] is None and third[k] is None))
+                        continue
+                    obs += [Ob.eq(nm + ": second query == fresh object", second[k], exp[k]),
+                            Ob.eq(nm + ": third query == fresh object", third[k], exp[k])]
+            stack = ops[0]
+            for o in ops[1:]:
+                stack = o @ stack
+            obs.append(Ob.eq("pre site 0: documented product (later added acts later)", mk().get_single_site_controls(1, False)[0], stack))
+        return obs
+
+
+class H4tebd(Case):
+    """the same ChainControl (two controls stacked on one site/step/side) and process tensors used in two
+    PtTebd computations == the computation with fresh copies (real PtTebd on a two-site chain without
+    coupling terms, driver as in C18/H3b)."""
+    functions = ("PtTebd.compute", "PtTebd._apply_controls", "ChainControl.get_single_site_controls")
+    stubs = ("tensornetwork numpy backend svd -> exact non-truncating factorisation",
+             "builtin complex() in PtTebdBackend.get_norm -> identity on symbolic scalars")
+    timeout_s = 300
+
+    def __init__(self, N=1):
+        from checks.c18 import ENV_CH
+        self.env = ENV_CH
+        self.N = N
+        self.id = "H4/reuse_chain_control_pt_tebd_N%d" % N
+        self.bounds = {"sites": 2, "d": 2, "N": N, "stacked controls": 2, "pt bond": 1}
+
+    def run(self, inp):
+        import oqupy.pt_tebd as ptt
+        N, D = self.N, 4
+        g = [inp.arr("g%d" % k, (D,)) for k in range(2)]
+        ops = [inp.arr("C%d" % i, (D, D)) for i in range(2)]
+
+        def mkpts():
+            return [build_pt(inp, "e%d" % k, 2, N, 1, 4, False)[0] for k in range(2)]
+
+        def mkcc():
+            cc = ChainControl([2, 2])
+            for o in ops:
+                cc.add_single_site_control(o.copy(), 0, 1 if N >= 1 else 0)
+                cc.add_single_site_control(o.copy(), 1, 0, post=True)
+            return cc
+
+        def run(cc, pts):
+            mps = oqupy.AugmentedMPS([g[0].copy(), g[1].copy()])
+            par = oqupy.PtTebdParameters(dt=0.1, order=1, epsrel=1e-14)
+            tebd = ptt.PtTebd(mps, oqupy.SystemChain([2, 2]), pts, par, chain_control=cc, dynamics_sites=[0, 1])
+            with _quiet():
+                res = tebd.compute(N, progress_type="silent")
+            return [list(res["dynamics"][k]._states) for k in range(2)]
+        fresh = run(mkcc(), mkpts())
+        cc, pts = mkcc(), mkpts()
+        first = run(cc, pts)
+        second = run(cc, pts)
+        obs = []
+        for k in range(2):
+            for n in range(N + 1):
+                obs.append(Ob.eq("first use: site %d state %d == fresh" % (k, n), first[k][n], fresh[k][n]))
+                obs.append(Ob.eq("second use: site %d state %d == fresh" % (k, n), second[k][n], fresh[k][n]))
+        return obs
+
+
 # --------------------------------------------------------------------------
 # H4 reuse
 # --------------------------------------------------------------------------
@@ -683,6 +891,10 @@ def cases(tier):
         if th or lay == "F":
             cs += [H3mps(1, lay), H3mps(3, lay), H3mps(4, lay)]
     cs += [H3tempo("C", alias=True), H3ctrl_alias()]
+    cs += [H3rec(v) for v in ("dynamics_ctor", "dynamics_add", "meanfield_add", "compute_dynamics_nopt", "compute_dynamics_pt")]
+    cs += [H4ctl("control"), H4ctl("chain_control"), H4tebd(1)]
+    if th:
+        cs += [H4ctl("control", 3), H4ctl("chain_control", 3), H4tebd(2)]
     # H4
     cs += [H4("dynamics"), H4("gradient"), H4corr("sd"), H4("dynamics", rank=3, transforms=True)]
     if th:
